@@ -22,13 +22,17 @@ import (
 	"reflect"
 	"strings"
 	"unsafe"
+
+	"github.com/zclconf/go-cty/cty"
 )
 
 func init() {
-	register("C20", "histories of API calls (constructors, accessors, operation methods, ValueSet/PathSet/Path/Walk) interleaved with caller mutations of every Go object passed in or handed back; "+
-		"scripted aliasing scenarios (every accessor/constructor x mutation of its result/argument) + random histories; purity repeats; thorough: -race worker with 2-16 goroutines "+
+	register("C20", "histories of API calls (constructors, accessors, operation methods, marks, ValueSet/PathSet/Path/Walk) interleaved with caller mutations of every Go object passed in or handed back; "+
+		"scripted aliasing scenarios (every accessor/constructor x mutation of its result/argument) + random histories; valid calls outside the model's fragment are executed and judged by (S) only (tags outside-model:*); "+
+		"goroutines: 2-4 REAL goroutines run a history each over a shared state (read-only API on shared data, mutation of their own), diffed against the driver's arena/one-heap interleaving semantics (op heap.conc) and against their own sequential results; "+
+		"S-only scenarios for API outside the model (tags d1:*); purity repeats; -race worker with 2-16 goroutines (quick: 2 short runs when the race build is cached; thorough: 15 long runs) "+
 		"(the -race runs SUPPORT the model's write sets — API calls write only what they allocate — under the schedules that occurred; they are not a proof of race freedom, and the Go memory model is not modelled). "+
-		"non-trivial = history of >= 4 steps with >= 1 caller mutation; distinct = distinct canonical history strings", runC20)
+		"non-trivial = history (goroutine programs included) of >= 4 steps with >= 1 caller mutation; distinct = distinct canonical history strings; purity / derived / d1 evaluations are counted as evaluations only", runC20)
 }
 
 var c20mutators = map[string]bool{"setFloat": true, "setElem": true, "setElemType": true, "setStep": true, "mapPut": true,
@@ -104,8 +108,17 @@ func (r *c20Run) has(g *c20Go, what string) bool {
 	return false
 }
 
+// c20copying: accessors / helpers whose CONTRACT is a fresh object.  Provenance (`prov`)
+// is keyed by pointer for the whole history; so that an accessor which handed out a
+// pointer the caller ALREADY holds (say AsBigFloat returning the *big.Float that was
+// given to NumberVal) is not filed under that earlier, documented transfer, every
+// object such an accessor returns is compared with all registers when it is created.
+var c20copying = map[string]bool{"asBigFloat": true, "asValueSlice": true, "asValueMap": true, "asValueSet": true, "marks": true, "unmark": true,
+	"vsValues": true, "vsCopy": true, "pathCopy": true, "pathIndex": true, "pathGetAttr": true}
+
 // classify names the documented ownership transfer behind a leak, or "".
-func (r *c20Run) classify(op *c20Op, target *c20Go) string {
+// changed is the Go register that reads differently (nil: an existing VALUE does).
+func (r *c20Run) classify(op *c20Op, target, changed *c20Go) string {
 	switch op.name {
 	case "setFloat":
 		if target != nil && r.has(target, "numberVal") {
@@ -123,6 +136,10 @@ func (r *c20Run) classify(op *c20Op, target *c20Go) string {
 			return "attributetypes-returns-internal-map"
 		}
 	case "setStep", "appendStep":
+		if op.name == "appendStep" && target != nil && r.has(target, "from:psList") && r.has(target, "psAddAllSteps") {
+			// not a write to the listed path itself: append found the spare capacity AddAllSteps left in it
+			return "pathset-addallsteps-members-share-capacity"
+		}
 		if target != nil && r.has(target, "from:walk") {
 			return "walk-path-buffer-reused"
 		}
@@ -133,7 +150,12 @@ func (r *c20Run) classify(op *c20Op, target *c20Go) string {
 			return "pathset-add-retains-path"
 		}
 	case "walkNext":
-		return "walk-path-buffer-reused"
+		// the next callback invocation re-uses the path buffer: only a path the callback
+		// was handed, or a PathSet / []Path that was given such a path WITHOUT copying it,
+		// may read differently — never a value
+		if changed != nil && (r.has(changed, "from:walk") || changed.holdsWalkPath) {
+			return "walk-path-buffer-reused"
+		}
 	}
 	return ""
 }
@@ -176,15 +198,41 @@ func (r *c20Run) step(op *c20Op) bool {
 			r.note(g, k)
 		}
 	}
+	// a PathSet that was given a walk callback's path without a copy, and what List() hands out of it
+	if (op.name == "psAdd" || op.name == "psAddAllSteps") && op.a >= 0 && op.a < len(h.gos) && op.b >= 0 && op.b < len(h.gos) &&
+		(r.has(h.gos[op.b], "from:walk") || h.gos[op.b].origin == "walk") {
+		h.gos[op.a].holdsWalkPath = true
+	}
+	if op.name == "psList" && op.a >= 0 && op.a < len(h.gos) && h.gos[op.a].holdsWalkPath {
+		h.gos[len(h.gos)-1].holdsWalkPath = true
+	}
+	// independent of the model: what a copying accessor returns is an object no register held before
+	for i := len(bg); i < len(h.gos); i++ {
+		g := h.gos[i]
+		if !c20copying[g.origin] || g.origin != op.name || g.ident() == nil {
+			continue
+		}
+		for j := 0; j < len(bg); j++ {
+			if h.gos[j].ident() == g.ident() {
+				r.ctx.Fail(Failure{Site: "no-escape", Sig: "accessor-result-not-fresh:" + g.origin, What: "an accessor returned a Go object the caller already holds: " + lit,
+					Input: strings.Join(r.wires, " "), GoLit: strings.Join(r.lits, "; "), Outcome: fmt.Sprintf("g%d is the same object as g%d", i, j)})
+			}
+		}
+		r.ctx.Eval("fresh "+g.origin+" "+strings.Join(r.wires, " "), false)
+	}
 	av, ag := h.snapshot()
 	items := []string{}
+	valueChanged := false
+	for i := range bv {
+		valueChanged = valueChanged || bv[i] != av[i]
+	}
 	for i, f := range av {
 		if i >= len(bv) || bv[i] != f {
 			items = append(items, fmt.Sprintf("v%d=%s", i, f))
 		}
 		if i < len(bv) && bv[i] != f {
 			// an EXISTING value reports something else now
-			sig := r.classify(op, target)
+			sig := r.classify(op, target, nil)
 			f := Failure{Site: "fingerprints-stable", Sig: sig, What: "an existing value changed after " + lit,
 				Input: strings.Join(r.wires, " "), GoLit: strings.Join(r.lits, "; "), Outcome: fmt.Sprintf("v%d was %s, is now %s", i, bv[i], av[i])}
 			if sig == "" {
@@ -195,6 +243,14 @@ func (r *c20Run) step(op *c20Op) bool {
 			if op.name == "setElemType" || op.name == "mapPutType" {
 				r.stop = true
 			}
+			// a member of a set changed IN PLACE (through a documented transfer): it is now filed under the
+			// hash it had before, so Has / Equals / Add on that set no longer find it.  The model's
+			// `Equivalent` (equality of fingerprints) does not follow go-cty there; what comes after is
+			// outside every theorem anyway (the history is not respectful): stop here, this step included.
+			if strings.Contains(bv[i], "(set") {
+				r.stop = true
+				r.ctx.Tag("stop:set-member-changed-in-place")
+			}
 		}
 	}
 	for i, f := range ag {
@@ -203,7 +259,7 @@ func (r *c20Run) step(op *c20Op) bool {
 		}
 		if i < len(bg) && bg[i] != f {
 			g := h.gos[i]
-			receiver := (op.name == "vsAdd" || op.name == "vsRemove" || op.name == "psAdd") && i == op.a
+			receiver := (op.name == "vsAdd" || op.name == "vsRemove" || op.name == "psAdd" || op.name == "psRemove" || op.name == "psAddAllSteps") && i == op.a
 			alias := target != nil && (g == target || (targetID != nil && g.ident() == targetID))
 			if receiver || alias {
 				continue
@@ -211,7 +267,7 @@ func (r *c20Run) step(op *c20Op) bool {
 			helper := g.kind == "vset" || g.kind == "pset"
 			walked := g.kind == "path" && g.origin == "walk"
 			if helper || walked || g.kind == "paths" {
-				sig := r.classify(op, target)
+				sig := r.classify(op, target, g)
 				fl := Failure{Site: "fingerprints-stable", Sig: sig, What: "Go data the caller holds (" + g.kind + ") changed though it was not the receiver/target of " + lit,
 					Input: strings.Join(r.wires, " "), GoLit: strings.Join(r.lits, "; "), Outcome: fmt.Sprintf("g%d was %s, is now %s", i, bg[i], ag[i])}
 				if sig == "" {
@@ -219,7 +275,19 @@ func (r *c20Run) step(op *c20Op) bool {
 				}
 				r.ctx.Fail(fl)
 				r.ctx.Tag("leak:" + fl.Sig)
-			} else if !c20mutators[op.name] {
+				if helper {
+					// a member of a helper set changed in place: filed under a stale hash from here on (see above)
+					r.stop = true
+					r.ctx.Tag("stop:set-member-changed-in-place")
+				}
+			} else if c20mutators[op.name] && valueChanged {
+				// seen through a value it holds (reported above)
+			} else if c20mutators[op.name] {
+				// plain caller data changed by a write to a DIFFERENT Go object (no register
+				// aliases: those were skipped above) — two objects share storage
+				r.ctx.Fail(Failure{Site: "fingerprints-stable", Sig: "caller-data-aliased:" + g.kind + ":" + g.origin, What: "a write to one Go object changed another the caller holds: " + lit,
+					Input: strings.Join(r.wires, " "), GoLit: strings.Join(r.lits, "; "), Outcome: fmt.Sprintf("g%d was %s, is now %s", i, bg[i], ag[i])})
+			} else {
 				// plain caller data changed by an API call
 				r.ctx.Fail(Failure{Site: "fingerprints-stable", Sig: "caller-data-changed-by:" + op.name, What: "an API call changed Go data the caller holds: " + lit,
 					Input: strings.Join(r.wires, " "), GoLit: strings.Join(r.lits, "; "), Outcome: fmt.Sprintf("g%d was %s, is now %s", i, bg[i], ag[i])})
@@ -241,7 +309,12 @@ func (r *c20Run) finish() {
 		return
 	}
 	impl := strings.Join(append(append([]string{}, r.steps...), "|", layout), " ")
-	r.ctx.Add("heap.run", impl, r.wires...)
+	if r.h.outside != "" {
+		// a valid call the model does not cover was executed on the real code and judged by (S): no correspondence case
+		r.ctx.Tag("outside-model:" + r.h.outside)
+	} else {
+		r.ctx.Add("heap.run", impl, r.wires...)
+	}
 	r.ctx.Eval(strings.Join(r.wires, " "), len(r.wires) >= 4 && r.nMut >= 1)
 }
 
@@ -266,6 +339,17 @@ func (h *c20H) pickGo(r *rand.Rand, kinds ...string) int {
 		return c[len(c)-1-r.Intn(c20min(3, len(c)))]
 	}
 	return c[r.Intn(len(c))]
+}
+
+// valsWhere lists the value registers that satisfy p.
+func (h *c20H) valsWhere(p func(cty.Value) bool) []int {
+	var c []int
+	for i, v := range h.vals {
+		if p(v) {
+			c = append(c, i)
+		}
+	}
+	return c
 }
 
 func (h *c20H) pickVal(r *rand.Rand) int {
@@ -293,15 +377,15 @@ type c20w struct {
 var c20weights = []c20w{
 	{"newFloat", 4}, {"newSlice", 8}, {"newMap", 6}, {"newMarks", 2}, {"newTypes", 3}, {"newTypeMap", 2}, {"nilPath", 2},
 	{"setFloat", 8}, {"setElem", 8}, {"setElemType", 5}, {"setStep", 5}, {"mapPut", 6}, {"mapPutType", 4}, {"mapDelete", 3}, {"marksAdd", 3},
-	{"appendVal", 5}, {"appendStep", 4}, {"elemPath", 3},
+	{"appendVal", 5}, {"appendStep", 4}, {"elemPath", 5},
 	{"numberVal", 5}, {"numberIntVal", 5}, {"stringVal", 4}, {"boolVal", 1}, {"nullVal", 1}, {"unknownVal", 3},
 	{"listVal", 5}, {"tupleVal", 5}, {"objectVal", 5}, {"mapVal", 4}, {"setVal", 5}, {"setValFromValueSet", 5},
-	{"asBigFloat", 4}, {"asValueSlice", 6}, {"asValueMap", 4}, {"asValueSet", 5}, {"elements", 3}, {"lengthInt", 2}, {"getAttr", 3}, {"index", 3},
-	{"marks", 2}, {"unmark", 2}, {"mark", 3}, {"withMarks", 3},
+	{"asBigFloat", 4}, {"asValueSlice", 6}, {"asValueMap", 4}, {"asValueSet", 5}, {"elements", 3}, {"lengthInt", 2}, {"getAttr", 5}, {"index", 5},
+	{"marks", 2}, {"unmark", 2}, {"mark", 3}, {"withMarks", 3}, {"withSameMarks", 3},
 	{"opAdd", 2}, {"opNegate", 1}, {"opEquals", 2}, {"opLength", 1},
 	{"newValueSet", 4}, {"vsAdd", 12}, {"vsRemove", 4}, {"vsHas", 2}, {"vsCopy", 7}, {"vsValues", 3}, {"vsLength", 1},
 	{"tupleType", 3}, {"tupleElementTypes", 3}, {"objectType", 2}, {"attributeTypes", 3},
-	{"pathIndex", 3}, {"pathGetAttr", 4}, {"pathCopy", 3}, {"newPathSet", 2}, {"psAdd", 5}, {"psHas", 2}, {"psList", 3},
+	{"pathIndex", 3}, {"pathGetAttr", 4}, {"pathCopy", 3}, {"newPathSet", 2}, {"psAdd", 5}, {"psAddAllSteps", 3}, {"psHas", 2}, {"psRemove", 3}, {"psList", 5},
 	{"walkBegin", 2}, {"walkNext", 8},
 }
 
@@ -398,6 +482,9 @@ func (h *c20H) genOp(r *rand.Rand) *c20Op {
 		op.a, op.s = h.pickGo(r, "path"), str()
 	case "elemPath":
 		op.a, op.n = h.pickGo(r, "paths"), int64(r.Intn(3))
+		if op.a >= 0 && len(h.gos[op.a].paths) > 0 {
+			op.n = int64(r.Intn(len(h.gos[op.a].paths)))
+		}
 	case "numberVal":
 		op.a = h.pickGo(r, "float")
 	case "stringVal":
@@ -419,13 +506,31 @@ func (h *c20H) genOp(r *rand.Rand) *c20Op {
 		op.a = h.pickVal(r)
 	case "getAttr":
 		op.a, op.s = h.pickVal(r), str()
+		// mostly: an object that has attributes, and one of them
+		if c := h.valsWhere(func(v cty.Value) bool { return v.Type().IsObjectType() && len(v.Type().AttributeTypes()) > 0 && v.IsKnown() && !v.IsNull() }); len(c) > 0 && r.Intn(4) != 0 {
+			op.a = c[r.Intn(len(c))]
+			ks := sortedKeys(h.vals[op.a].Type().AttributeTypes())
+			op.s = ks[r.Intn(len(ks))]
+		}
 	case "index":
 		op.a, op.n, op.s = h.pickVal(r), int64(r.Intn(3)), str()
+		// mostly: a non-empty list / tuple / map and an index it has
+		if c := h.valsWhere(func(v cty.Value) bool {
+			return c20plain(v) && (v.Type().IsListType() || v.Type().IsTupleType() || v.Type().IsMapType()) && v.LengthInt() > 0
+		}); len(c) > 0 && r.Intn(4) != 0 {
+			op.a = c[r.Intn(len(c))]
+			v := h.vals[op.a]
+			op.n = int64(r.Intn(v.LengthInt()))
+			if v.Type().IsMapType() {
+				ks := sortedKeys(v.AsValueMap())
+				op.s = ks[r.Intn(len(ks))]
+			}
+		}
 	case "mark":
 		op.a, op.s = h.pickVal(r), []string{"p", "q"}[r.Intn(2)]
 	case "withMarks":
 		op.a, op.b = h.pickVal(r), h.pickGo(r, "marks")
-	case "opAdd", "opEquals":
+	case "opAdd", "opEquals", "withSameMarks":
 		op.a, op.b = h.pickVal(r), h.pickVal(r)
 	case "newValueSet":
 		if len(h.vals) > 0 && r.Intn(2) == 0 {
@@ -452,7 +557,7 @@ func (h *c20H) genOp(r *rand.Rand) *c20Op {
 		op.a, op.s = h.pickGo(r, "path"), str()
 	case "pathCopy":
 		op.a = h.pickGo(r, "path")
-	case "psAdd", "psHas":
+	case "psAdd", "psHas", "psRemove", "psAddAllSteps":
 		op.a, op.b = h.pickGo(r, "pset"), h.pickGo(r, "path")
 	case "psList":
 		op.a = h.pickGo(r, "pset")
@@ -469,20 +574,23 @@ func (h *c20H) genOp(r *rand.Rand) *c20Op {
 func c20random(ctx *Ctx, steps int) {
 	r := newC20Run(ctx)
 	for tries := 0; len(r.wires) < steps && tries < steps*40 && !r.panics && !r.stop; tries++ {
-		r.step(r.h.genOp(ctx.R))
+		op := r.h.genOp(ctx.R)
+		if !r.step(op) {
+			ctx.Tag("skip:" + op.name) // not applicable in this state (harness-side fragment of the model): nothing was executed
+		}
 	}
 	r.finish()
 }
 
 func runC20(ctx *Ctx) {
 	c20scenarios(ctx)
-	n := ctx.N(1500, 40000)
+	n := ctx.N(1800, 40000)
 	for i := 0; i < n; i++ {
 		c20random(ctx, 6+ctx.R.Intn(ctx.N(18, 40)))
 	}
 	c20purity(ctx)
 	c20derived(ctx)
-	if ctx.Thorough {
-		c20race(ctx)
-	}
+	c20conc(ctx)
+	c20d1(ctx)
+	c20race(ctx) // quick: 2 short runs when the -race build is cached; thorough: 15 long runs
 }
